@@ -34,7 +34,7 @@ func (d *decls) walk(t *T) {
 			for _, a := range t.Args {
 				as = append(as, a.Sort.SMT())
 			}
-			d.ufs[t.Name] = fmt.Sprintf("(declare-fun %s (%s) %s)", t.Name, strings.Join(as, " "), t.Sort.SMT())
+			d.ufs[t.Name] = fmt.Sprintf("(declare-fun %s (%s) %s)", ufSym(t.Name), strings.Join(as, " "), t.Sort.SMT())
 			d.order = append(d.order, "u:"+t.Name)
 		}
 	}
